@@ -37,7 +37,9 @@ SCOPE = (
     "RecurrencePlot.diagline_dist / vertline_dist / white_vertline_dist vs. a direct run-length "
     "count of recurrence_matrix(); conservation (sum l*P(l) = off-diagonal recurrences, "
     "sum v*P(v) = recurrences, sum w*P(w) = non-recurrences; '<=' for black lines under missing "
-    "values); sparse_rqa=True == sparse_rqa=False (supremum, fixed threshold); all scalar "
+    "values); sparse_rqa=True == sparse_rqa=False (supremum, fixed threshold; with the manhattan / "
+    "euclidean metric the sequential histograms and recurrence rate must be refused or equal the "
+    "matrix mode: checks sequential/other-metric-refused-or-equal/*); all scalar "
     "measures (DET, L, ENTR, LAM, TT, max lengths, mean recurrence time, white entropy, "
     "rqa_summary, recurrence_rate, recurrence_probability, defaults, aliases) as functions of "
     "the histograms for every l_min=v_min=w_min in 1..N.  Exhaustive: all symmetric 0/1 "
@@ -386,6 +388,27 @@ def sparse_compare(rep, RP, w, X, thr, mv, rp, R, miss, **kw):
         if not ok:
             rep.fail("sequential/" + name + "-equals-matrix-mode", w, f"{a}: sparse {a_s} matrix {a_m}")
     rep.case()
+    # The sequential kernels implement the supremum metric only ("Sequential RQA is currently only
+    # available for fixed threshold and the supremum metric"): with another metric the histograms
+    # must either be refused or still equal those of the matrix mode under that metric.
+    for metric in ("manhattan", "euclidean"):
+        try:
+            sp2 = RP(X, threshold=thr, metric=metric, missing_values=mv, sparse_rqa=True, silence_level=3, **kw)
+            rp2 = RP(X, threshold=thr, metric=metric, missing_values=mv, silence_level=3, **kw)
+        except Exception:                                        # noqa: BLE001
+            continue
+        for name in ("diagline_dist", "vertline_dist", "recurrence_rate"):
+            if name == "recurrence_rate" and anymiss:
+                continue
+            try:
+                a_s = getattr(sp2, name)()
+            except Exception:                                    # noqa: BLE001
+                continue                                         # refused
+            a_m = getattr(rp2, name)()
+            if not np.allclose(np.asarray(a_s, dtype=float), np.asarray(a_m, dtype=float), rtol=1e-12, atol=0):
+                rep.fail("sequential/other-metric-refused-or-equal/" + name, dict(w, sequential_metric=metric),
+                         f"{metric}: sparse {np.asarray(a_s).tolist()} matrix {np.asarray(a_m).tolist()}")
+        rep.case()
 
 
 
